@@ -46,10 +46,27 @@ def share_variants(U, d):
     return out
 
 
-def check_tree(U, d, share, rec: Rec, light=False):
+def check_tree(U, d, share, rec: Rec, light=False, route="direct"):
     zoo.reset_registry()
     index = {}
     root = U.build(d, index=index, share=share)
+    if route != "direct":
+        # non-initial states: the same tree reached by another route must traverse identically
+        from ..desc import node_at
+
+        if route == "duplicate":
+            root = root.duplicate()
+        elif route == "deserialized":
+            payload = root.as_dict()
+            del root
+            index.clear()
+            zoo.reset_registry()
+            root = zoo.ASTNode.as_obj(payload)
+        elif route == "identity-transform":
+            from pyoak.visitor import ASTTransformVisitor
+
+            root = type("IdV", (ASTTransformVisitor,), {})().transform(root)
+        index = {p: node_at(root, p) for p, _ in U.positions(d)}
     paths = [p for p, _ in U.positions(d)[1:]]
     desc_at = dict(U.positions(d))
 
@@ -58,7 +75,7 @@ def check_tree(U, d, share, rec: Rec, light=False):
 
     pkey = {p: key(p) for p in paths}
     keys = list(dict.fromkeys(pkey.values()))
-    case = {"tree": d, "share": None if not share else [[list(k), list(v)] for k, v in share.items()]}
+    case = {"tree": d, "share": None if not share else [[list(k), list(v)] for k, v in share.items()], "route": route}
     rec.count("states")
     rec.sample(case)
 
@@ -234,6 +251,9 @@ def run_shard(cfg):
                 continue
             rec.rank = idx
             check_tree(U, d, None, rec, light=(n >= 5))
+            if cfg.get("tier") == "thorough" and n <= 4:
+                for route in ("duplicate", "deserialized", "identity-transform"):
+                    check_tree(U, d, None, rec, light=True, route=route)
             if n <= cfg["share_n"]:
                 for sh in share_variants(U, d):
                     check_tree(U, d, sh, rec, light=True)
@@ -247,5 +267,5 @@ def replay(case, cfg):
     share = None
     if case.get("share"):
         share = {tuple(tuple(s) for s in k): tuple(tuple(s) for s in v) for k, v in case["share"]}
-    check_tree(U, case["tree"], share, rec)
+    check_tree(U, case["tree"], share, rec, route=case.get("route", "direct"))
     return rec.result()["violations"]
